@@ -770,7 +770,7 @@ func drawC06Cfg(t *sim.Tape) c06Cfg {
 	g.Keys = t.Range(2, 12)
 	g.KeyMode = t.Pick(3, 2, 2)
 	g.Sector = []int{512, 1, 8, 16, 32, 64}[t.Choose(6)]
-	g.Epoch0 = []uint32{1, 2, 1000, 70000, 4000000000}[t.Choose(5)]
+	g.Epoch0 = []uint32{1, 2, 1000, 70000, 4000000000, 4294967294, 4294967295}[t.Choose(7)] // the last two make the epoch counter wrap through 0 during the run
 	g.BigOff = t.Chance(1, 5)
 	return g
 }
